@@ -515,8 +515,9 @@ class Matpower(Part):
 
 # ------------------------------------------------------------------ PSS/E RAW
 
-def spec_to_raw(spec, variant):
-    """Independent RAW v33 writer; returns (text, reference element data in ANDES conventions)."""
+def spec_to_raw(spec, variant, xf3=None, gens=None):
+    """Independent RAW v33 writer; returns (text, reference element data in ANDES conventions).
+    xf3: optional three-winding transformer dict(buses, z12, z23, z31, windv, ang, mag, stat, cz, sb)."""
     base = float(variant.get('sbase', 100.0))
     L = [f'0, {base:.2f}, 33, 0, 1, 60.00 / generated', 'VMC GENERATED CASE', 'SECOND TITLE LINE']
     slack = {d['bus'] for d in spec['Slack']}
@@ -542,11 +543,11 @@ def spec_to_raw(spec, variant):
         L.append(f"{d['bus']},'{k + 1}',1,{1.5:.6f},{6.0:.6f}")
         ref['shunt'].append(dict(bus=d['bus'], g=1.5 / base, b=6.0 / base, u=1))
     L.append('0 / END OF FIXED SHUNT DATA, BEGIN GENERATOR DATA')
-    for d in spec['Slack'] + spec['PV']:
+    for d in (gens if gens is not None else [dict(g, id='1', mbase=150.0) for g in spec['Slack'] + spec['PV']]):
         pg = d.get('p0', 0.0) * base
         st = int(d.get('u', 1))
-        L.append(f"{d['bus']},'1',{pg:.6f},0.000,9900.0,-9900.0,{d['v0']:.5f},0,150.000,0.0,0.25,0.0,0.0,1.0,{st},100.0,9999.0,0.0,1,1.0")
-        ref['gen'].append(dict(bus=d['bus'], p0=pg / base, v0=d['v0'], u=st, Sn=150.0, slack=d['bus'] in slack))
+        L.append(f"{d['bus']},'{d['id']}',{pg:.6f},0.000,9900.0,-9900.0,{d['v0']:.5f},0,{d['mbase']:.3f},0.0,0.25,0.0,0.0,1.0,{st},100.0,9999.0,0.0,1,1.0")
+        ref['gen'].append(dict(bus=d['bus'], p0=pg / base, v0=d['v0'], u=st, Sn=d['mbase'], slack=d['bus'] in slack, id=d['id']))
     L.append('0 / END OF GENERATOR DATA, BEGIN BRANCH DATA')
     kv = {b['idx']: b['Vn'] for b in spec['Bus']}
     xf = []
@@ -580,6 +581,18 @@ def spec_to_raw(spec, variant):
         # equivalent single-tap model on the from side: ratio t1/t2, series impedance scaled by t2^2
         ref['line'].append(dict(bus1=ln['bus1'], bus2=ln['bus2'], r=r * t2 ** 2, x=x * t2 ** 2, b=0.0, g1=0, b1=0, g2=0, b2=0,
                                 tap=t1 / t2, phi=math.radians(ang), u=st, Sn=base, kind='xf', zsys=(r + 1j * x) * t2 ** 2))
+    if xf3:
+        i, j, k = xf3['buses']
+        cz = xf3.get('cz', 1)
+        sb = xf3.get('sb', (base, base, base))          # winding-pair bases (used by CZ = 2)
+        zz = [xf3['z12'], xf3['z23'], xf3['z31']]
+        if cz == 2:
+            zz = [z * sbp / base for z, sbp in zip(zz, sb)]    # the same physical impedances, on the winding-pair bases
+        mg, mb = xf3.get('mag', (0.0, 0.0))
+        L.append(f"{i},{j},{k},'1',1,{cz},1,{mg:.6f},{mb:.6f},2,'XF3W',{xf3.get('stat', 1)},1,1.0")
+        L.append(','.join(f'{z.real:.8f},{z.imag:.8f},{sbp:.2f}' for z, sbp in zip(zz, sb)) + ',1.00000,0.0000')
+        for w, a in zip(xf3['windv'], xf3['ang']):
+            L.append(f"{w:.6f},0.000,{a:.4f},0,0,0,0,0,1.1,0.9,1.1,0.9,33,0,0.0,0.0,0.0")
     L.append('0 / END OF TRANSFORMER DATA, BEGIN AREA DATA')
     L.append("1,1,0.0,10.0,'AREA1'")
     for blk in ('AREA', 'TWO-TERMINAL DC', 'VSC DC LINE', 'IMPEDANCE CORRECTION', 'MULTI-TERMINAL DC', 'MULTI-SECTION LINE', 'ZONE',
@@ -694,8 +707,299 @@ class Psse(Part):
         return out
 
 
+class Psse3W(Part):
+    """Three-winding transformers: the parsed network must be electrically the star equivalent of the record."""
+    name = 'psse3w'
+    chunk = 2
+    timeout = 600.0
+    nproc = 8
+
+    VAR = [dict(), dict(windv=(1.03, 0.97, 1.0)), dict(ang=(0.0, 3.0, -2.0)), dict(sbase=50.0),
+           dict(cz=2, sb=(250.0, 80.0, 120.0)), dict(mag=(0.002, -0.03)), dict(windv=(1.03, 0.97, 1.0), sbase=50.0)]
+
+    def describe(self, tier):
+        return ('triangle network + one three-winding transformer (1-2-3): variants plain, off-nominal winding ratios, winding '
+                'angles, system base 50 MVA, CZ=2 with three different winding-pair bases, magnetising admittance, ratios + base; '
+                'generated RAW v33 -> System; power-flow voltages at the original buses against the star equivalent solved by '
+                'the independent network model')
+
+    def cases(self, tier):
+        return [dict(variant=i, dev=d) for i in range(len(self.VAR)) for d in ([], [['d', 1, 'pv']])]
+
+    def init_worker(self):
+        self.tmp = tempfile.mkdtemp(prefix='c13w-')
+
+    def execute(self, case):
+        import andes
+        from vmc.checks.c01 import to_net
+        out = Outcome()
+        v = self.VAR[case['variant']]
+        tag = ','.join(sorted(v)) or 'plain'
+        spec = spec_of(dict(edges=[(0, 1), (0, 2), (1, 2)], dev=case['dev']))
+        z12, z23, z31 = 0.01 + 0.12j, 0.008 + 0.09j, 0.012 + 0.2j           # pu on the system base
+        xf3 = dict(buses=(1, 2, 3), z12=z12, z23=z23, z31=z31, windv=v.get('windv', (1.0, 1.0, 1.0)), ang=v.get('ang', (0.0, 0.0, 0.0)),
+                   mag=v.get('mag', (0.0, 0.0)), cz=v.get('cz', 1))
+        base = float(v.get('sbase', 100.0))
+        if 'sb' in v:
+            xf3['sb'] = v['sb']
+        else:
+            xf3['sb'] = (base, base, base)
+        text, ref = spec_to_raw(spec, dict(sbase=base) if 'sbase' in v else {}, xf3=xf3)
+        path = os.path.join(self.tmp, f'w-{os.getpid()}.raw')
+        open(path, 'w').write(text)
+        try:
+            ss = andes.load(path, no_output=True, default_config=True)
+        except Exception as e:
+            import traceback
+            tb = traceback.extract_tb(e.__traceback__)
+            out.bad(f'raw_read_raises:{type(e).__name__}@{tb[-1].name if tb else "?"}:{tag}', f'{type(e).__name__}: {e}')
+            return out
+        finally:
+            os.remove(path)
+        if ss is None:
+            out.bad(f'raw_not_loaded:{tag}', 'andes.load returned None')
+            return out
+        ok = ss.PFlow.run()
+        # ---- reference: the same network with the star equivalent, everything in per unit on the system base
+        rspec = {k: [dict(d) for d in lst] for k, lst in spec.items()}
+        for ln in rspec['Line']:
+            ln['Sn'] = base              # the RAW text carries the spec's per-unit numbers on the case base
+        star = 99
+        rspec['Bus'].append(dict(idx=star, name='STAR', Vn=1.0, vmax=1.6, vmin=0.4))
+        zs = [(z12 + z31 - z23) / 2, (z12 + z23 - z31) / 2, (z23 + z31 - z12) / 2]
+        kv = {b['idx']: b['Vn'] for b in spec['Bus']}
+        for n_, (b, z, w, a) in enumerate(zip((1, 2, 3), zs, xf3['windv'], xf3['ang'])):
+            ln = dict(idx=f'W{n_}', bus1=b, bus2=star, r=z.real, x=z.imag, tap=w, phi=math.radians(a), Vn1=kv[b], Vn2=1.0, Sn=base)
+            if n_ == 0 and any(xf3['mag']):
+                ln['g1'], ln['b1'] = xf3['mag']           # magnetising admittance sits at the winding-1 bus
+            rspec['Line'].append(ln)
+        net = to_net(rspec)
+        net.Sb = base
+        try:
+            Vref = net.solve()
+        except Exception:
+            Vref = None
+        if Vref is None:
+            out.obs = dict(skipped='reference does not solve')
+            return out
+        if not ok:
+            out.bad(f'xf3:parsed_case_does_not_solve:{tag}', 'power flow of the parsed RAW case fails; the star equivalent solves')
+            return out
+        worst = 0.0
+        for k, b in enumerate(ss.Bus.idx.v):
+            if b in (1, 2, 3):
+                V = ss.Bus.v.v[k] * np.exp(1j * ss.Bus.a.v[k])
+                worst = max(worst, abs(V - Vref[b]))
+        if worst > 1e-6:
+            out.bad(f'xf3:voltages_differ_from_star_equivalent:{tag}', f'three-winding variant {tag}: bus voltages differ from the '
+                                                                       f'star-equivalent solution by {worst:.3e} pu')
+        out.obs = dict(variant=tag, worst=float(f'{worst:.2e}'), lines=int(ss.Line.n), buses=int(ss.Bus.n))
+        out.nontrivial = True
+        return out
+
+
+# ------------------------------------------------------------------ PSS/E dynamic data (dyr)
+
+# Field order of each record after IBUS 'MODEL' ID, written from the PSS/E model library documentation (NOT from the yaml map
+# under test), with the ANDES parameter that holds the field. 'H' is the inertia constant (ANDES stores M = 2H).
+DYR_FIELDS = {
+    'GENROU': ['Td10', 'Td20', 'Tq10', 'Tq20', 'H', 'D', 'xd', 'xq', 'xd1', 'xq1', 'xd2', 'xl', 'S10', 'S12'],
+    'GENSAL': ['Td10', 'Td20', 'Tq20', 'H', 'D', 'xd', 'xq', 'xd1', 'xd2', 'xl', 'S10', 'S12'],
+    'GENCLS': ['H', 'D'],
+    'SEXS': ['TATB', 'TB', 'K', 'TE', 'EMIN', 'EMAX'],
+    'EXST1': ['TR', 'VIMAX', 'VIMIN', 'TC', 'TB', 'KA', 'TA', 'VRMAX', 'VRMIN', 'KC', 'KF', 'TF'],
+    'IEEET1': ['TR', 'KA', 'TA', 'VRMAX', 'VRMIN', 'KE', 'TE', 'KF', 'TF', 'Switch', 'E1', 'SE1', 'E2', 'SE2'],
+    'IEEEX1': ['TR', 'KA', 'TA', 'TB', 'TC', 'VRMAX', 'VRMIN', 'KE', 'TE', 'KF1', 'TF1', '-Switch', 'E1', 'SE1', 'E2', 'SE2'],
+    'ESST3A': ['TR', 'VIMAX', 'VIMIN', 'KM', 'TC', 'TB', 'KA', 'TA', 'VRMAX', 'VRMIN', 'KG', 'KP', 'KI', 'VBMAX', 'KC', 'XL', 'VGMAX',
+               '-THETAP', 'TM', 'VMMAX', 'VMMIN'],
+    'TGOV1': ['R', 'T1', 'VMAX', 'VMIN', 'T2', 'T3', 'Dt'],
+    'IEEEG1': ['-JBUS', '-M', 'K', 'T1', 'T2', 'T3', 'UO', 'UC', 'PMAX', 'PMIN', 'T4', 'K1', 'K2', 'T5', 'K3', 'K4', 'T6', 'K5', 'K6',
+               'T7', 'K7', 'K8'],
+    'GAST': ['R', 'T1', 'T2', 'T3', 'AT', 'KT', 'VMAX', 'VMIN', 'Dt'],
+    'HYGOV': ['R', 'r', 'Tr', 'Tf', 'Tg', 'VELM', 'GMAX', 'GMIN', 'Tw', 'At', 'Dt', 'qNL'],
+    'IEEEST': ['MODE', '-IB', 'A1', 'A2', 'A3', 'A4', 'A5', 'A6', 'T1', 'T2', 'T3', 'T4', 'T5', 'T6', 'KS', 'LSMAX', 'LSMIN', 'VCU', 'VCL'],
+}
+DYR_DEST = {'GENSAL': 'GENROU'}
+DYR_KIND = {'GENROU': 'syn', 'GENSAL': 'syn', 'GENCLS': 'syn', 'SEXS': 'exc', 'EXST1': 'exc', 'IEEET1': 'exc', 'IEEEX1': 'exc',
+            'ESST3A': 'exc', 'TGOV1': 'gov', 'IEEEG1': 'gov', 'GAST': 'gov', 'HYGOV': 'gov', 'IEEEST': 'pss'}
+DYR_MACHINES = [(1, '1', 900.0), (2, '1', 600.0), (2, '2', 300.0)]     # (bus, id, MBASE) of the generators in the RAW file
+DYR_PLANS = {
+    'A': [('GENROU', 0), ('GENROU', 1), ('GENCLS', 2), ('SEXS', 0), ('EXST1', 1), ('IEEEG1', 0), ('TGOV1', 1), ('IEEEST', 1)],
+    'B': [('GENSAL', 0), ('GENCLS', 1), ('GENROU', 2), ('IEEET1', 0), ('ESST3A', 2), ('GAST', 0), ('HYGOV', 2), ('IEEEST', 2)],
+    'C': [('GENROU', 0), ('GENROU', 1), ('GENROU', 2), ('IEEEX1', 0), ('IEEEX1', 1), ('SEXS', 2), ('TGOV1', 0), ('TGOV1', 1),
+          ('TGOV1', 2), ('IEEEST', 0)],
+}
+
+
+def dyr_value(model, machine, k, name):
+    """A distinct, legal number for field k of a record."""
+    base = 0.2 + 0.07 * k + 0.011 * machine + 0.003 * (sum(map(ord, model)) % 7)
+    if name in ('VIMIN', 'VRMIN', 'EMIN', 'LSMIN', 'VMIN', 'VMMIN', 'PMIN', 'GMIN', 'UC'):
+        return -base
+    if name in ('MODE', 'Switch'):
+        return 1 if name == 'MODE' else 0
+    if name in ('-IB', '-JBUS', '-M'):
+        return 0
+    if name in ('S10',):
+        return 0.05 + 0.01 * machine
+    if name in ('S12',):
+        return 0.3 + 0.01 * machine
+    if name in ('xd', 'xq'):
+        return 1.5 + base
+    if name in ('xd1', 'xq1'):
+        return 0.4 + 0.1 * base
+    if name in ('xd2',):
+        return 0.25 + 0.01 * machine
+    if name in ('xl',):
+        return 0.1 + 0.01 * machine
+    if name in ('H',):
+        return 3.0 + base
+    return base
+
+
+class PsseDyr(Part):
+    """PSS/E dynamic data: every record must land on the machine named by (IBUS, ID), field by field."""
+    name = 'dyr'
+    chunk = 1
+    timeout = 600.0
+    nproc = 8
+
+    def describe(self, tier):
+        return (f'RAW triangle with three generators (two on one bus, ids 1/2, three MBASE values) + generated dyr text: placement '
+                f'plans {list(DYR_PLANS)} over {sorted(DYR_FIELDS)} x record order (as planned, reversed, dependents first) x layout '
+                f'(one line, wrapped lines): every field of every record against the field order of the PSS/E documentation, '
+                f'attachment to the machine named by (IBUS, ID), M = 2H, machine base = MBASE of that generator')
+
+    def cases(self, tier):
+        return [dict(plan=p, order=o, layout=lay) for p in DYR_PLANS for o in ('planned', 'reversed', 'dependents_first')
+                for lay in ('line', 'wrapped')]
+
+    def init_worker(self):
+        self.tmp = tempfile.mkdtemp(prefix='c13d-')
+
+    def execute(self, case):
+        import andes
+        out = Outcome()
+        seen = set()
+
+        def bad(sig, msg):
+            if sig not in seen:
+                seen.add(sig)
+                out.bad(sig, msg)
+        spec = spec_of(dict(edges=[(0, 1), (0, 2), (1, 2)], dev=[['d', 1, 'pv']]))
+        gens = [dict(bus=1, id='1', p0=0.0, v0=1.02, mbase=900.0), dict(bus=2, id='1', p0=0.25, v0=1.01, mbase=600.0),
+                dict(bus=2, id='2', p0=0.15, v0=1.01, mbase=300.0)]
+        raw_text, _ = spec_to_raw(spec, {}, gens=gens)
+        plan = list(DYR_PLANS[case['plan']])
+        if case['order'] == 'reversed':
+            plan = plan[::-1]
+        elif case['order'] == 'dependents_first':
+            plan = sorted(plan, key=lambda r: {'pss': 0, 'gov': 1, 'exc': 2, 'syn': 3}[DYR_KIND[r[0]]])
+        lines = []
+        records = []
+        for model, mi in plan:
+            bus, gid, mbase = DYR_MACHINES[mi]
+            vals = [dyr_value(model, mi, k, name) for k, name in enumerate(DYR_FIELDS[model])]
+            records.append((model, mi, vals))
+            toks = [f'{v:.6g}' for v in vals]
+            head = f"{bus} '{model}' {gid}"
+            if case['layout'] == 'line':
+                lines.append(head + ' ' + ' '.join(toks) + ' /')
+            else:
+                lines.append(head + ' ' + ' '.join(toks[:3]))
+                for i in range(3, len(toks), 5):
+                    lines.append('      ' + ' '.join(toks[i:i + 5]))
+                lines[-1] += ' /'
+        rawp = os.path.join(self.tmp, f'd-{os.getpid()}.raw')
+        dyrp = os.path.join(self.tmp, f'd-{os.getpid()}.dyr')
+        open(rawp, 'w').write(raw_text)
+        open(dyrp, 'w').write('\n'.join(lines) + '\n')
+        try:
+            ss = andes.load(rawp, addfile=dyrp, no_output=True, default_config=True)
+        except Exception as e:
+            import traceback
+            tb = traceback.extract_tb(e.__traceback__)
+            bad(f'dyr_read_raises:{type(e).__name__}@{tb[-1].name if tb else "?"}', f'{type(e).__name__}: {e}')
+            return out
+        finally:
+            for f in (rawp, dyrp):
+                if os.path.exists(f):
+                    os.remove(f)
+        if ss is None:
+            bad('dyr_not_loaded', 'andes.load returned None')
+            return out
+        # static generator of each machine slot
+        sg = {}
+        for m in (ss.Slack, ss.PV):
+            for k in range(m.n):
+                sg[(m.bus.v[k], str(m.subidx.v[k]).strip())] = (m, k)
+
+        def machine_of(bus, gid):
+            hits = []
+            for mdl in ss.SynGen.models.values():
+                for k in range(mdl.n):
+                    g = mdl.gen.v[k]
+                    gm = ss.StaticGen.idx2model(g)
+                    gk = gm.idx2uid(g)
+                    if (gm.bus.v[gk], str(gm.subidx.v[gk]).strip()) == (bus, gid):
+                        hits.append((mdl, k))
+            return hits
+        checked = 0
+        for model, mi, vals in records:
+            bus, gid, mbase = DYR_MACHINES[mi]
+            dest = DYR_DEST.get(model, model)
+            kind = DYR_KIND[model]
+            mach = machine_of(bus, gid)
+            if len(mach) != 1:
+                bad(f'dyr:machine_count:{model}', f'{len(mach)} machines on generator ({bus}, {gid!r}) for record {model}')
+                continue
+            mmdl, mk = mach[0]
+            if kind == 'syn':
+                mdl, k = mmdl, mk
+                if mdl.class_name != dest:
+                    bad(f'dyr:wrong_destination:{model}', f'({bus},{gid}): {mdl.class_name} instead of {dest}')
+                    continue
+                if abs(mdl.Sn.v[k] - mbase) > 1e-9:
+                    bad(f'dyr:machine_base_wrong:{model}', f'({bus},{gid}): Sn = {mdl.Sn.v[k]} vs MBASE {mbase}')
+            else:
+                mdl = getattr(ss, dest)
+                midx = mmdl.idx.v[mk]
+                if kind == 'pss':
+                    # a stabiliser is linked to the exciter of the machine
+                    ex = [(em, ek) for em in ss.Exciter.models.values() for ek in range(em.n) if em.syn.v[ek] == midx]
+                    ks = [i for i in range(mdl.n) if ex and mdl.avr.v[i] == ex[0][0].idx.v[ex[0][1]]]
+                else:
+                    ks = [i for i in range(mdl.n) if mdl.syn.v[i] == midx]
+                if len(ks) != 1:
+                    bad(f'dyr:attachment_wrong:{model}', f'record {model} at ({bus},{gid}): {len(ks)} devices attached to that machine')
+                    continue
+                k = ks[0]
+            for name, val in zip(DYR_FIELDS[model], vals):
+                if name.startswith('-'):
+                    continue
+                pname, want = ('M', 2 * val) if name == 'H' else (name, val)
+                p = getattr(mdl, pname, None)
+                if p is None:
+                    bad(f'dyr:no_such_parameter:{model}.{pname}', f'{dest} has no parameter {pname}')
+                    continue
+                got = (p.vin if getattr(p, 'vin', None) is not None else p.v)[k]
+                checked += 1
+                if abs(float(got) - want) > 1e-6 * max(1.0, abs(want)):
+                    bad(f'dyr:field_wrong:{model}.{pname}', f'record {model} at ({bus},{gid}): {pname} = {got} but the file gives '
+                                                            f'{want:.6g}')
+            if model in ('GENROU', 'GENSAL') and 'xd2' in DYR_FIELDS[model]:
+                x2 = vals[DYR_FIELDS[model].index('xd2')]
+                got = mdl.xq2.vin[k]
+                if abs(got - x2) > 1e-6:
+                    bad(f'dyr:field_wrong:{model}.xq2', f'({bus},{gid}): xq2 = {got}, the file gives X\'\'d = X\'\'q = {x2}')
+        out.obs = dict(plan=case['plan'], order=case['order'], layout=case['layout'], fields=checked)
+        out.transitions = len(records)
+        out.nontrivial = True
+        return out
+
+
 def parts(tier):
-    return [Stock(), Generated(tier), Matpower(tier), Psse(tier)]
+    return [Stock(), Generated(tier), Matpower(tier), Psse(tier), Psse3W(), PsseDyr()]
 
 
 def run(run, only=None):
